@@ -28,6 +28,7 @@ static Case gen_case ()
 	c.seti ("seed", (long long) *seedGen ()) ;
 	c.seti ("nops", *rangeOf<int> (0, 20)) ;
 	c.seti ("frames", *rc::gen::element (0, 1, 100, 5000)) ;
+	c.seti ("nchunks", *rc::gen::element (0, 0, 3, 25, 60)) ;
 	c.seti ("mut", *rangeOf<int> (0, 5)) ; c.seti ("cut", *rangeOf<int> (0, 1000)) ;
 	c.seti ("fault_at", *rangeOf<int> (1, 60)) ; c.seti ("fault_kind", *rangeOf<int> (1, FK_COUNT - 1)) ; c.seti ("persistent", *rangeOf<int> (0, 1)) ;
 	return c ;
@@ -101,6 +102,8 @@ static Result run_case (const Case &c)
 	{	MemFile w ; SNDFILE *f = open_write_mem (w, s) ;
 		if (f)
 		{	for (int i = 0 ; i < 4 ; i++) alloc_commands (f, rng, ch, true) ;
+			// many custom chunks, so that readers grow their chunk tables (capacity steps at 20, 31, 48, ...)
+			for (long long i = 0, n = c.geti ("nchunks") ; i < n ; i++) { SF_CHUNK_INFO ci ; memset (&ci, 0, sizeof (ci)) ; snprintf (ci.id, sizeof (ci.id), "c%03lld", i) ; ci.id_size = 4 ; char pl [8] = "abcdefg" ; ci.data = pl ; ci.datalen = 8 ; if (sf_set_chunk (f, &ci) != 0) break ; }
 			std::vector<short> a ((size_t) frames * ch) ; for (auto &x : a) x = (short) rng.next () ; if (frames) sf_writef_short (f, a.data (), frames) ;
 			sf_close (f) ; valid = w.data ;
 		}
